@@ -27,15 +27,77 @@ func runC53(c *eng.Ctx) {
 	p := c.P
 	// ---- R1 no write primitive reachable from the read-only query paths ----
 	mutators := []string{
-		"tsdb/wlog:WL.Log", "tsdb/wlog:WL.NextSegment", "tsdb/wlog:WL.Truncate", "tsdb/wlog:WL.Repair", "tsdb/wlog:Checkpoint", "tsdb/wlog:DeleteCheckpoints",
+		"tsdb/wlog:WL.Log", "tsdb/wlog:WL.NextSegment", "tsdb/wlog:WL.Truncate", "tsdb/wlog:WL.Repair", "tsdb/wlog:Checkpoint", "tsdb/wlog:DeleteCheckpoints", "tsdb/wlog:DeleteTempCheckpoints", "tsdb/tsdbutil:RemoveTmpDirs",
 		"tsdb/tombstones:WriteFile", "tsdb:writeMetaFile", "tsdb:LeveledCompactor.write", "tsdb:DB.deleteBlocks", "tsdb:Head.truncateWAL",
+	}
+	// Cuts of the call graph, each justified by a rule below:
+	//  - Head.performChunkSnapshot / Head.writeSeriesState: only with EnableMemorySnapshotOnShutdown / EnableFastStartup,
+	//    which DefaultHeadOptions (the only source of the read-only head's options) leaves off;
+	//  - index.Writer.Close: VTA resolves the io.Closer-style Close in DBReadOnly.Blocks to it, but no index.Writer
+	//    can exist on these paths: its constructors are not reachable.
+	cuts := []string{"tsdb:Head.performChunkSnapshot", "tsdb:Head.writeSeriesState", "tsdb/index:Writer.Close"}
+	for _, from := range []string{"tsdb:DBReadOnly.Querier", "tsdb:DBReadOnly.ChunkQuerier", "tsdb:DBReadOnly.Blocks", "tsdb:DBReadOnly.Block"} {
+		c.NoReachSSA("R1", from, []string{"tsdb/index:NewWriterWithEncoder", "tsdb/index:NewFileWriter", "tsdb/chunks:NewWriter"}, cuts[:2]...)
 	}
 	// (DBReadOnly.LastBlockID only lists directories: it calls nothing in the module.)
 	for _, from := range []string{"tsdb:DBReadOnly.Querier", "tsdb:DBReadOnly.ChunkQuerier", "tsdb:DBReadOnly.Blocks", "tsdb:DBReadOnly.Block",
 		"tsdb:DBReadOnly.loadDataAsQueryable"} {
 		// Head.Close may snapshot the head (a WAL-like write) when EnableMemorySnapshotOnShutdown is set; the
 		// read-only head is built from DefaultHeadOptions (checked below), where it is off.  The graph is cut there.
-		c.NoReachSSA("R1", from, mutators, "tsdb:Head.performChunkSnapshot")
+		c.NoReachSSA("R1", from, mutators, cuts...)
+	}
+	// Every module function reachable from the read-only query paths that calls a file-system
+	// mutating function of the standard library (or the fileutil rename helpers) is in the table
+	// below, with the reason why it only ever touches the sandbox.  A new one must be classified.
+	{
+		fsMut := []string{"os:Remove", "os:RemoveAll", "os:Rename", "os:Create", "os:Mkdir", "os:MkdirAll", "os:MkdirTemp", "os:WriteFile", "os:Truncate",
+			"os:OpenFile", "os:Link", "os:Symlink", "os:CreateTemp", "tsdb/fileutil:Replace", "tsdb/fileutil:Rename"}
+		sandboxOnly := map[string]string{
+			"tsdb/chunks:HardLinkChunkFiles":               "creates the sandbox chunks_head directory and links into it",
+			"tsdb/chunks:ChunkDiskMapper.openMMapFiles":    "operates on HeadOptions.ChunkDirRoot (= sandbox, R2)",
+			"tsdb/chunks:ChunkDiskMapper.cut":              "operates on ChunkDirRoot (= sandbox, R2)",
+			"tsdb/chunks:ChunkDiskMapper.deleteFiles":      "operates on ChunkDirRoot (= sandbox, R2)",
+			"tsdb/chunks:ChunkDiskMapper.DeleteCorrupted":  "operates on ChunkDirRoot (= sandbox, R2)",
+			"tsdb/chunks:NewChunkDiskMapper":               "MkdirAll of ChunkDirRoot (= sandbox, R2)",
+			"tsdb/chunks:repairLastChunkFile":              "operates on ChunkDirRoot (= sandbox, R2)",
+			"tsdb/chunks:cutSegmentFile":                   "operates on ChunkDirRoot (= sandbox, R2)",
+			"tsdb:DeleteChunkSnapshots":                    "operates on ChunkDirRoot (= sandbox, R2); snapshots are not linked into the sandbox",
+			"tsdb:Head.ChunkSnapshot":                      "cut away: only with EnableMemorySnapshotOnShutdown (off in DefaultHeadOptions)",
+			"tsdb/fileutil:Rename":                         "helper, reached only through the functions above",
+			"tsdb/fileutil:Replace":                        "helper, reached only through the functions above",
+			"tsdb/fileutil:preallocExtend":                 "preallocation of a file created by the functions above",
+			"tsdb/fileutil:CopyDirs":                       "not reachable today; listed for completeness",
+		}
+		reach := map[string]bool{}
+		for _, from := range []string{"tsdb:DBReadOnly.Querier", "tsdb:DBReadOnly.ChunkQuerier", "tsdb:DBReadOnly.Blocks", "tsdb:DBReadOnly.Block"} {
+			for f := range c.ReachableDecls(from, cuts...) {
+				reach[eng.FuncName(f)] = true
+			}
+		}
+		ix := p.Index()
+		n, bad := 0, 0
+		for _, m := range fsMut {
+			f := p.TryFunc(m)
+			if f == nil {
+				continue
+			}
+			for _, s := range ix.CallersOf(f) {
+				if !reach[s.InName] {
+					continue
+				}
+				n++
+				if _, ok := sandboxOnly[s.InName]; !ok {
+					bad++
+					path := c.WitnessPath("tsdb:DBReadOnly.Querier", s.In, cuts...)
+					c.Fail("R1", s.InName, "file-system mutators reachable from the read-only query paths are classified as sandbox-only", p.Pos(s.Node.Pos()),
+						s.InName+" calls "+m+" and is reachable from DBReadOnly.Querier/ChunkQuerier/Blocks/Block, but is not in the sandbox-only table; path: "+path)
+				}
+			}
+		}
+		if bad == 0 {
+			c.Check("R1", "tsdb:DBReadOnly", "file-system mutators reachable from the read-only query paths are classified as sandbox-only", n >= 3, "",
+				"fewer than 3 reachable mutator call sites found: the reachability computation is broken")
+		}
 	}
 	// positive controls: the same graph finds the paths that are known to exist
 	c.MustReachSSA("R1", "tsdb:DBReadOnly.FlushWAL", "tsdb:LeveledCompactor.write") // FlushWAL writes a block on purpose (to a caller-chosen dir)
@@ -55,7 +117,7 @@ func runC53(c *eng.Ctx) {
 			return false
 		}
 		id, ok := kv.Key.(*ast.Ident)
-		return ok && id.Name == "EnableMemorySnapshotOnShutdown" && eng.ExprString(kv.Value) != "false"
+		return ok && (id.Name == "EnableMemorySnapshotOnShutdown" || id.Name == "EnableFastStartup") && eng.ExprString(kv.Value) != "false"
 	}))
 	// wlog.Open gives a reader-only WL: no segment is opened for writing
 	c.Fn("tsdb/wlog:Open").Hasnt("R1", p.Call("tsdb/wlog:CreateSegment", "tsdb/wlog:OpenWriteSegment"))
@@ -85,6 +147,37 @@ func runC53(c *eng.Ctx) {
 	for _, fn := range []string{"tsdb:open", "tsdb:DBReadOnly.loadDataAsQueryable", "tsdb:DBReadOnly.FlushWAL"} {
 		f := c.Fn(fn)
 		f.ArgDerivesOnlyFrom("R3", p.Call("tsdb:Head.Init"), 0, "inOrderBlocksMaxTime", src)
+	}
+	// the decision whether the WAL is replayed at all compares the requested maxt with the same cutoff
+	{
+		f := c.Fn("tsdb:DBReadOnly.loadDataAsQueryable")
+		n := 0
+		ast.Inspect(f.Body, func(x ast.Node) bool {
+			be, ok := x.(*ast.BinaryExpr)
+			if !ok || !f.IsCondOperand(be) {
+				return true
+			}
+			var other ast.Expr
+			if eng.IsIdent("maxt")(f.Graph, be.X) {
+				other = be.Y
+			} else if eng.IsIdent("maxt")(f.Graph, be.Y) {
+				other = be.X
+			} else {
+				return true
+			}
+			n++
+			ok, bad, why := f.ValueDerivesOnlyFrom(other, src)
+			pos := p.Pos(be.Pos())
+			if bad != nil {
+				pos = p.Pos(bad.Pos())
+			}
+			c.Check("R3", f.Where(), "what the requested maxt is compared with derives only from inOrderBlocksMaxTime", ok, pos, why)
+			return true
+		})
+		if n == 0 {
+			c.Fail("R3", f.Where(), "what the requested maxt is compared with derives only from inOrderBlocksMaxTime", p.Pos(f.Body.Pos()),
+				"no branch condition compares the parameter maxt any more (the WAL-needed decision changed shape)")
+		}
 	}
 	// and the method is the generic helper
 	c.Fn("tsdb:DB.inOrderBlocksMaxTime").DomOK("R3", p.Call("tsdb:inOrderBlocksMaxTime"))
